@@ -1,5 +1,5 @@
 (* Props/C04.v — JOIN pairs each A record with exactly its key-equal B records. *)
-From RBQL Require Import Base Value Expr Writers Join Join_Proofs Agg Engine Spec Engine_Proofs.
+From RBQL Require Import Base Value Expr Writers Join Join_Proofs Agg Engine Spec Engine_Proofs Header Header_Proofs Width_Proofs JoinWidth_Proofs.
 
 (* the bucket found for key k holds exactly the B records whose key equals k, in B order,
    each with its record number and field count *)
@@ -13,20 +13,41 @@ Theorem C04_matches : forall (ks : list rkey) (B : list rec) (m : jmap) (k : key
 Proof. exact build_matches. Qed.
 Print Assumptions C04_matches.
 
-(* INNER / JOIN: the matches; LEFT [OUTER]: the matches, or one all-None record as wide as the widest B record;
-   STRICT LEFT: exactly one match or a runtime error *)
+(* INNER / JOIN: the matches; LEFT [OUTER]: the matches, or one all-None record as wide as the widest of: the B records,
+   the join header; STRICT LEFT: exactly one match or a runtime error.
+   [widen jh m] is the map the main loop works with (C04_engine_map): right after build(), shallow_parse_input_query
+   raises max_record_len to the number of names of the join header when there is one (jh = Some n; fix c71773a, D27) *)
 Theorem C04_inner : forall m k, get_rhs JInner m k = Ok (map binfo_of (get_join_records (m_buckets m) k)).
 Proof. exact get_rhs_inner. Qed.
 Print Assumptions C04_inner.
 
-Theorem C04_left : forall ks B m k, build ks B = inl m ->
-  get_rhs JLeft m k =
+Theorem C04_left : forall ks B m jh k, build ks B = inl m ->
+  get_rhs JLeft (widen jh m) k =
     Ok (match get_join_records (m_buckets m) k with
-        | [] => let n := fold_left (fun acc f => Nat.max acc (length f)) B 0 in [BRec None n (repeat ANone n)]
+        | [] => let n := Nat.max (fold_left (fun acc f => Nat.max acc (length f)) B 0)
+                                 (match jh with Some n => n | None => 0 end) in
+                [BRec None n (repeat ANone n)]
         | ms => map binfo_of ms
         end).
-Proof. intros ks B m k H. rewrite get_rhs_left, (build_maxlen ks B m H). reflexivity. Qed.
+Proof. exact get_rhs_left_widened. Qed.
 Print Assumptions C04_left.
+
+(* the header adjustment touches nothing but the width of that null record: the buckets are build's, INNER and STRICT LEFT
+   are unaffected, and so is LEFT JOIN for every key that has a partner *)
+Theorem C04_widen_only_null_record : forall jh m k,
+  m_buckets (widen jh m) = m_buckets m
+  /\ (forall jk, jk <> JLeft -> get_rhs jk (widen jh m) k = get_rhs jk m k)
+  /\ (get_join_records (m_buckets m) k <> [] -> get_rhs JLeft (widen jh m) k = get_rhs JLeft m k)
+  /\ widen None m = m.
+Proof. exact widen_only_null_record. Qed.
+Print Assumptions C04_widen_only_null_record.
+
+(* the join map of a run: build over the join records, widened by the join header of the query's join clause *)
+Theorem C04_engine_map : forall (expr : Type) (q : query expr) js B jm,
+  q_join q = Some js -> join_map_of expr q B = Some jm ->
+  exists m, build (j_rhs js) B = inl m /\ jm = Some (widen (j_bhdr js) m).
+Proof. exact join_map_of_widen. Qed.
+Print Assumptions C04_engine_map.
 
 Theorem C04_strict : forall m k,
   (length (get_join_records (m_buckets m) k) = 1 ->
@@ -62,15 +83,23 @@ Proof.
 Qed.
 Print Assumptions C04_downstream.
 
-(* non-vacuity: duplicate keys, a LEFT JOIN null record, NR as key component *)
+(* non-vacuity: duplicate keys, a LEFT JOIN null record (no header: widest B record; a header wider than every B record:
+   the header; a join table with a header and NO records: the header), NR as key component *)
 Definition exB : list rec := [[AStr [49%N]; AStr [112%N]]; [AStr [50%N]]; [AStr [49%N]; AStr [113%N]; AStr [114%N]]].
 Example C04_nonvacuous :
   exists m, build [RFld 0] exB = inl m
     /\ get_rhs JInner m [AStr [49%N]] = Ok [BRec (Some 1) 2 [AStr [49%N]; AStr [112%N]]; BRec (Some 3) 3 [AStr [49%N]; AStr [113%N]; AStr [114%N]]]
-    /\ get_rhs JLeft m [AStr [57%N]] = Ok [BRec None 3 [ANone; ANone; ANone]]
+    /\ get_rhs JLeft (widen None m) [AStr [57%N]] = Ok [BRec None 3 [ANone; ANone; ANone]]
+    /\ get_rhs JLeft (widen (Some 2) m) [AStr [57%N]] = Ok [BRec None 3 [ANone; ANone; ANone]]
+    /\ get_rhs JLeft (widen (Some 4) m) [AStr [57%N]] = Ok [BRec None 4 [ANone; ANone; ANone; ANone]]
+    /\ (exists m0, build [RFld 0] [] = inl m0
+                   /\ get_rhs JLeft (widen (Some 3) m0) [AStr [57%N]] = Ok [BRec None 3 [ANone; ANone; ANone]]
+                   /\ get_rhs JLeft (widen None m0) [AStr [57%N]] = Ok [BRec None 0 []])
     /\ (exists m2, build [RNR] exB = inl m2 /\ get_rhs JStrict m2 [AInt 2] = Ok [BRec (Some 2) 1 [AStr [50%N]]]).
 Proof.
   eexists. split; [vm_compute; reflexivity|]. split; [vm_compute; reflexivity|]. split; [vm_compute; reflexivity|].
+  split; [vm_compute; reflexivity|]. split; [vm_compute; reflexivity|].
+  split; [eexists; split; [vm_compute; reflexivity|]; split; vm_compute; reflexivity|].
   eexists. split; vm_compute; reflexivity.
 Qed.
 Print Assumptions C04_nonvacuous.
